@@ -8,6 +8,11 @@
  *  - response kind `upgrade-hc`: the upgrade handler itself calls
  *    MHD_upgrade_action(CLOSE) before returning;
  *  - `beh f=r<a>/r<b>`: if queueing response a is refused, response b is queued;
+ *  - `resp … o=<flags>`: MHD_set_response_options in the middle of the header calls; response flags in
+ *    the script use the canonical numbering strict=1 server=2 insanity=4 keepalive-hdr=8 head-only=16;
+ *    after the object is built: `resp-obj rid=<r> rets=<call results> fa=<flags_auto, canonical:
+ *    conn=1 close=2 te=4 cl=8 date=16> fl=<flags> ents=<H|F:name=value,…>` (MHD_get_response_headers);
+ *  - `cfg nodate=1`: MHD_USE_SUPPRESS_DATE_NO_CLOCK;
  *  - white-box state snapshot around MHD_queue_response (state, response pointer,
  *    read-buffer offset, discard flag) printed as `unchanged=<0|1>`;
  *
@@ -51,8 +56,8 @@ uint64_t MHD_monotonic_msec_counter (void) { return vclock_ms; }
 /* ---------------------------------------------------------------- config */
 static struct {
   char mode[16]; size_t mem, incr; int lvl; unsigned limit, perip, timeout;
-  int upgrade, suspend, have_lvl; unsigned nonce_tbl;
-} cfg = { "select", 0, 0, 0, 0, 0, 0, 0, 0, 0, 0 };
+  int upgrade, suspend, have_lvl; unsigned nonce_tbl; int nodate;
+} cfg = { "select", 0, 0, 0, 0, 0, 0, 0, 0, 0, 0, 0 };
 
 static struct MHD_Daemon *d;
 
@@ -128,7 +133,7 @@ int close (int fd)
   errno = e; return r;
 }
 
-struct hdrspec { int kind; /* 0 add hdr, 1 add footer, 2 del hdr */ uint8_t *n, *v; };
+struct hdrspec { int kind; /* 0 add hdr, 1 add footer, 2 del hdr, 3 set options */ uint8_t *n, *v; unsigned fl; };
 struct resp {
   int used; char kind[16]; unsigned code; size_t size; unsigned flags;
   size_t cbmax; int cbnr; int cberr_at; /* content callback: max per call, not-ready count, error at pos (-1) */
@@ -188,6 +193,33 @@ static void upgrade_cb (void *cls, struct MHD_Connection *connection, void *req_
   }
 }
 
+/* canonical flag numbering of the line protocol <-> the real enum values */
+static unsigned rf_real (unsigned c)
+{
+  return ((c & 1) ? (unsigned) MHD_RF_HTTP_1_0_COMPATIBLE_STRICT : 0u) | ((c & 2) ? (unsigned) MHD_RF_HTTP_1_0_SERVER : 0u)
+         | ((c & 4) ? (unsigned) MHD_RF_INSANITY_HEADER_CONTENT_LENGTH : 0u) | ((c & 8) ? (unsigned) MHD_RF_SEND_KEEP_ALIVE_HEADER : 0u)
+         | ((c & 16) ? (unsigned) MHD_RF_HEAD_ONLY_RESPONSE : 0u);
+}
+static unsigned rf_canon (unsigned f)
+{
+  return ((f & MHD_RF_HTTP_1_0_COMPATIBLE_STRICT) ? 1u : 0u) | ((f & MHD_RF_HTTP_1_0_SERVER) ? 2u : 0u)
+         | ((f & MHD_RF_INSANITY_HEADER_CONTENT_LENGTH) ? 4u : 0u) | ((f & MHD_RF_SEND_KEEP_ALIVE_HEADER) ? 8u : 0u)
+         | ((f & MHD_RF_HEAD_ONLY_RESPONSE) ? 16u : 0u);
+}
+static unsigned raf_canon (unsigned f)
+{
+  return ((f & MHD_RAF_HAS_CONNECTION_HDR) ? 1u : 0u) | ((f & MHD_RAF_HAS_CONNECTION_CLOSE) ? 2u : 0u)
+         | ((f & MHD_RAF_HAS_TRANS_ENC_CHUNKED) ? 4u : 0u) | ((f & MHD_RAF_HAS_CONTENT_LENGTH) ? 8u : 0u)
+         | ((f & MHD_RAF_HAS_DATE_HDR) ? 16u : 0u);
+}
+static enum MHD_Result ent_iter (void *cls, enum MHD_ValueKind kind, const char *key, const char *value)
+{
+  int *n = (int *) cls;
+  if ((*n)++) putchar (',');
+  printf ("%c:", MHD_HEADER_KIND == kind ? 'H' : 'F'); puthexs (key, strlen (key)); putchar ('='); puthexs (value, strlen (value));
+  return MHD_YES;
+}
+
 static struct MHD_Response *make_resp (int rid)
 {
   struct resp *r = &resps[rid];
@@ -244,14 +276,25 @@ static struct MHD_Response *make_resp (int rid)
   else if (!strcmp (r->kind, "upgrade")) m = MHD_create_response_for_upgrade (&upgrade_cb, NULL);
   else if (!strcmp (r->kind, "upgrade-hc")) m = MHD_create_response_for_upgrade (&upgrade_cb, (void *) 1);
   if (NULL == m) return NULL;
-  if (r->flags) MHD_set_response_options (m, (enum MHD_ResponseFlags) r->flags, MHD_RO_END);
-  for (i = 0; i < (size_t) r->nh; i++)
+  if (r->flags) MHD_set_response_options (m, (enum MHD_ResponseFlags) rf_real (r->flags), MHD_RO_END);
   {
-    enum MHD_Result q;
-    if (0 == r->h[i].kind) q = MHD_add_response_header (m, (char *) r->h[i].n, (char *) r->h[i].v);
-    else if (1 == r->h[i].kind) q = MHD_add_response_footer (m, (char *) r->h[i].n, (char *) r->h[i].v);
-    else q = MHD_del_response_header (m, (char *) r->h[i].n, (char *) r->h[i].v);
-    out ("resp-hdr rid=%d op=%d -> %d", rid, r->h[i].kind, (int) q);
+    int rets[16], nents = 0;
+    for (i = 0; i < (size_t) r->nh; i++)
+    {
+      enum MHD_Result q;
+      if (0 == r->h[i].kind) q = MHD_add_response_header (m, (char *) r->h[i].n, (char *) r->h[i].v);
+      else if (1 == r->h[i].kind) q = MHD_add_response_footer (m, (char *) r->h[i].n, (char *) r->h[i].v);
+      else if (2 == r->h[i].kind) q = MHD_del_response_header (m, (char *) r->h[i].n, (char *) r->h[i].v);
+      else q = MHD_set_response_options (m, (enum MHD_ResponseFlags) rf_real (r->h[i].fl), MHD_RO_END);
+      rets[i] = (MHD_YES == q) ? 1 : 0;
+    }
+    flockfile (stdout);
+    printf ("resp-obj rid=%d rets=", rid);
+    for (i = 0; i < (size_t) r->nh; i++) printf ("%s%d", i ? "," : "", rets[i]);
+    printf (" fa=%u fl=%u ents=", raf_canon ((unsigned) m->flags_auto), rf_canon ((unsigned) m->flags));
+    MHD_get_response_headers (m, &ent_iter, &nents);
+    putchar ('\n');
+    funlockfile (stdout);
   }
   return m;
 }
@@ -529,6 +572,7 @@ static void start_daemon (void)
   struct MHD_OptionItem ops[16]; int n = 0;
   if (cfg.suspend) flags |= MHD_ALLOW_SUSPEND_RESUME;
   if (cfg.upgrade) flags |= MHD_ALLOW_UPGRADE;
+  if (cfg.nodate) flags |= MHD_USE_SUPPRESS_DATE_NO_CLOCK;
   if (!strcmp (cfg.mode, "epoll")) flags |= MHD_USE_EPOLL;
   else if (!strcmp (cfg.mode, "poll-thr")) flags |= MHD_USE_POLL | MHD_USE_INTERNAL_POLLING_THREAD | MHD_USE_ITC;
   else if (!strcmp (cfg.mode, "select-thr")) flags |= MHD_USE_INTERNAL_POLLING_THREAD | MHD_USE_ITC;
@@ -595,6 +639,7 @@ int main (void)
         else if (kv (l.w[i], "perip", &v)) cfg.perip = (unsigned) atoi (v);
         else if (kv (l.w[i], "timeout", &v)) cfg.timeout = (unsigned) atoi (v);
         else if (kv (l.w[i], "upgrade", &v)) cfg.upgrade = atoi (v);
+        else if (kv (l.w[i], "nodate", &v)) cfg.nodate = atoi (v);
         else if (kv (l.w[i], "suspend", &v)) cfg.suspend = atoi (v);
         else if (kv (l.w[i], "nonce_tbl", &v)) cfg.nonce_tbl = (unsigned) atoi (v);
       }
@@ -615,6 +660,8 @@ int main (void)
         else if (kv (l.w[i], "cbmax", &v)) r->cbmax = (size_t) atol (v);
         else if (kv (l.w[i], "cbnr", &v)) r->cbnr = atoi (v);
         else if (kv (l.w[i], "cberr", &v)) r->cberr_at = atoi (v);
+        else if (kv (l.w[i], "o", &v) && r->nh < 16)
+        { struct hdrspec *h = &r->h[r->nh]; h->kind = 3; h->n = NULL; h->v = NULL; h->fl = (unsigned) atoi (v); r->nh++; }
         else if ((kv (l.w[i], "h", &v) || kv (l.w[i], "f", &v) || kv (l.w[i], "d", &v)) && r->nh < 16)
         {
           char *colon = strchr ((char *) v, ':'); struct hdrspec *h = &r->h[r->nh];
